@@ -111,7 +111,7 @@ func TestMain(m *testing.M) {
 	if k := os.Getenv("C05_CHILD"); k != "" {
 		os.Exit(firstOp(k))
 	}
-	R.Require("first_operation", "key_buffer_reuse", "sbox_sweep_complete", "dst==src", "history>=3", "badkeylen")
+	R.Require("first_operation", "key_buffer_reuse", "helper_calls_between_objects", "sbox_sweep_complete", "dst==src", "history>=3", "badkeylen")
 	R.Assume("ref/rsm4 reproduces both GM/T 0002 vectors (TestRefSelf in setup; single-block vector re-checked here)")
 	hx.Main(m, R)
 }
@@ -353,6 +353,32 @@ func TestC05_KeyBufferReuse(t *testing.T) {
 				// a one-bit neighbour of the previous key
 				k = append([]byte{}, keys[i-1]...)
 				k[rapid.IntRange(0, 15).Draw(t, "byte")] ^= 1 << uint(rapid.IntRange(0, 7).Draw(t, "bit"))
+			}
+			if rapid.Bool().Draw(t, "interlude") {
+				// other use of the package between the creation of two cipher objects - a mode helper encrypting and
+				// decrypting under some unrelated key - is none of the live objects' business
+				hk := gen.BytesN(16).Draw(t, "helperkey")
+				msg := gen.Bytes(rapid.IntRange(0, 40)).Draw(t, "helpermsg")
+				helper := rapid.SampledFrom([]string{"ecb", "cbc", "cfb", "ofb"}).Draw(t, "helper")
+				call := func(in []byte, enc bool) ([]byte, error) {
+					switch helper {
+					case "ecb":
+						return sm4.Sm4Ecb(hk, in, enc)
+					case "cbc":
+						return sm4.Sm4Cbc(hk, in, enc)
+					case "cfb":
+						return sm4.Sm4CFB(hk, in, enc)
+					}
+					return sm4.Sm4OFB(hk, in, enc)
+				}
+				ct, err := call(msg, true)
+				if err != nil {
+					t.Fatalf("helper %s encrypt: %v", helper, err)
+				}
+				if back, err := call(ct, false); err != nil || !bytes.Equal(back, msg) {
+					t.Fatalf("helper %s does not invert itself: %v", helper, err)
+				}
+				R.Class("helper_calls_between_objects")
 			}
 			copy(buf, k)
 			c, err := sm4.NewCipher(buf)
